@@ -11,7 +11,6 @@ vx/prelude/spawn.rs.
   ENTRY_CHAIN  `M.entry(K)[.and_modify(|D| *D = E1)][.or_insert_with(|| E2 | PATH)];`
                -> `{ let k_ = K; if M.contains_key(&k_) { [M.insert(k_, E1);] } else { [M.insert(k_, E2);] } }`
   ASSOC_CONST  `Duration::ZERO` (associated constant of a std type, which Verus cannot import) -> `duration_zero()`
-  LOCAL_USE    `use PATH;` item inside a function body        -> dropped (the unit imports the names at file level)
 """
 import re
 
@@ -243,23 +242,3 @@ def ASSOC_CONST(body, ctx):
         out.append(body[pos:])
         body = ''.join(out)
     return body, n
-
-
-def LOCAL_USE(body, ctx):
-    """A `use PATH;` / `use PATH::{A, B};` item inside a function body is dropped: it only brings trait / type
-    names into scope (no run-time effect); the unit imports the corresponding prelude names at file level.
-    A name that the unit does not provide is a compile error, i.e. undecided, never a verdict."""
-    mask = code_mask(body)
-    rx = re.compile(r'(?<![A-Za-z0-9_.])use\s+[A-Za-z_][A-Za-z0-9_:\s{},*]*;')
-    out, pos, n = [], 0, 0
-    for m in rx.finditer(body):
-        if not mask[m.start()]:
-            continue
-        pre = body[:m.start()].rstrip()
-        if pre and pre[-1] not in ';{}':
-            continue
-        out.append(body[pos:m.start()])
-        pos = m.end()
-        n += 1
-    out.append(body[pos:])
-    return ''.join(out), n
